@@ -225,7 +225,7 @@ def gen_field(cs, gen, q, depth=0):
                 s += gen_field(cs, gen, q, 1)
                 gen.feat('fstring_nested_spec')
             elif k == 1:
-                s += cs.pick(['>10', '.3f', 'x', '^', ' ', '<5', ':', '!r', '08.3', ',', '%Y-%m', 'é', '+', '#x', '!'])
+                s += cs.pick(['>10', '.3f', 'x', '^', ' ', '<5', ':', '!r', '08.3', ',', '%Y-%m', 'é', '+', '#x', '!', '=10', '=^5', '=', '>=3', '!=', ':=1'])
             else:
                 s += cs.pick(['d', '5', '.2', 's', ''])
     return s + '}'
@@ -281,6 +281,8 @@ def gen_string_concat(cs, gen, force_f=False, no_f=False):
         else:
             lit = gen_plain_literal(cs, 'str', restrict, gen)
         toks.append(T(lit, 'str'))
+        if restrict is None and i + 1 < n and cs.bool(20):
+            toks.append(T(lit, 'str'))   # the same literal twice in a row (equal adjacent pieces must both survive merging)
     if n > 1:
         gen.feat('str_concat')
     return toks
